@@ -523,6 +523,83 @@ R.contract(
     replayable=False,
 )
 
+
+# ------------------------------------------------------------------------------------------------- evaluate: one expression keeps its value's type; a composite is the concatenation; anything unresolvable makes the whole unresolvable
+def _node_methods():
+    def ev(it, obj, a, k):
+        v = obj.fields["denotes"]
+        it.ghost["node_evals"] = it.ghost["node_evals"] + [obj]
+        return v
+
+    return {"evaluate": ev}
+
+
+R.nominal_methods["spec:ExprNode"] = _node_methods()
+
+
+class _Nodes(D):
+    """parser.parse(expr): 1..3 nodes, each denoting a text, a number, None (absent optional part) or UNRESOLVABLE."""
+
+    def make(self, it, name, idx=()):
+        from pyvc.values import VObj
+
+        n = it.path.choose([(k, True) for k in (1, 2, 3)], "n-nodes")
+        it.path.bounded_inputs.add("expressions of up to 3 nodes")
+        out = []
+        for i in range(n):
+            den = OneOf(Str, Const(7), NoneT, UNRES_).make(it, f"{name}[{i}]")
+            out.append(VObj(it.resolve_class("spec:ExprNode"), {"denotes": den}))
+        return out
+
+
+_pp = R.contracts["schemathesis.specs.openapi.expressions.parser:parse"]
+_pp_returns_before = _pp.returns
+
+
+def _parse_dispatch(it, env):
+    if getattr(it.top_contract, "variant", None) == "composite":
+        nodes_ = _Nodes().make(it, "nodes")
+        it.ghost["nodes"] = nodes_
+        return nodes_
+    return _pp_returns_before(it, env)
+
+
+_pp.returns = _parse_dispatch
+PARTS = "[n.denotes for n in ghost('nodes')]"
+R.contract(
+    EXP + "evaluate",
+    variant="composite",
+    prop="C10",
+    args={"expr": Str, "output": Opq("Out"), "evaluate_nested": Const(False)},
+    ghost={"nodes": None, "node_evals": [], "malformed": [], "parsed_kinds": []},
+    raises=["RuntimeExpressionError"],
+    ensures={
+        "a_single_expression_keeps_the_type_of_its_value": "implies(length(ghost('nodes')) == 1, same_ref(result, ghost('nodes')[0].denotes))",
+        # "unresolvable values are never sent": one unresolvable part makes the whole value unresolvable - it is not glued together from the parts that did resolve
+        "any_unresolvable_part_makes_the_whole_unresolvable": "implies(length(ghost('nodes')) > 1 and any(p is UNRESOLVABLE() for p in " + PARTS + "), result is UNRESOLVABLE())",
+        "otherwise_the_parts_are_concatenated_in_order": "implies(length(ghost('nodes')) > 1 and not any(p is UNRESOLVABLE() for p in " + PARTS + "), result == joined([p for p in " + PARTS + " if p is not None]))",
+        "every_node_is_evaluated_once_in_order": "length(ghost('node_evals')) == length(ghost('nodes')) and all(a is b for a, b in zip(ghost('node_evals'), ghost('nodes')))",
+    },
+    replayable=False,
+)
+
+
+def _joined(it, parts):
+    from pyvc.builtins_ import _sym_join
+
+    return _sym_join(it, "", [p if not isinstance(p, int) else str(p) for p in parts])
+
+
+R.spec_funcs["joined"] = _joined
+R.contract(
+    EXP + "evaluate",
+    variant="constant",
+    prop="C10",
+    args={"expr": OneOf(Const(5), Const(True), NoneT, Const(1.5)), "output": Opq("Out"), "evaluate_nested": Bool},
+    raises=[],
+    ensures={"a_non_string_constant_denotes_itself": "same_ref(result, expr) or result == expr"},
+)
+
 LEVEL_TEXT = ("Deductive: structural recursion of evaluate/_evaluate_nested against a denotation (lists of any length by invariant, dicts up to 2 entries), node evaluation, "
               "status matching; the expression lexer/parser and JSON-pointer resolution are covered by exhaustive bounded stand-ins. Level other.")
 LEVEL_NOTE = "Trusted: lexer/parser/resolve_pointer (stand-ins), requests URL preparation, expand_status_code (C04), pyvc semantics (E9)."
